@@ -210,6 +210,17 @@ impl<'a> World<'a> {
     }
 
     pub fn after_db_sync(&mut self, name: &str, r: io::Result<()>, ms: Vec<usize>) -> StepResult {
+        if self.ep.checks.fault_report {
+            let step = self.step_no;
+            let evs: Vec<(u32, KOp, String, u64, u64)> = kernel::with(|k| {
+                k.step_events
+                    .iter()
+                    .filter(|e| matches!(e.op, KOp::Write | KOp::Fsync | KOp::Fdatasync | KOp::Ftruncate))
+                    .map(|e| (step, e.op, k.inodes[e.ino as usize].path.rsplit('/').next().unwrap_or("").to_string(), e.off, e.len))
+                    .collect()
+            });
+            self.sync_events.extend(evs);
+        }
         let refusal = refusal_in_step();
         match (&r, &refusal) {
             (Err(_), Some(_)) => {
